@@ -20,6 +20,7 @@ type env struct {
 	cur, old   *state
 	pkgPath    string
 	typesOnly  bool
+	noAlias    bool // set while a renamed local is looked up under its current name
 	depth      int
 	iterEnv    *env
 	entryEnv   *env            // the state and loop-carried values on entry to the loop whose clause is being translated
@@ -292,6 +293,20 @@ func (e *env) ident(name string) *sym {
 	if tp := e.vc.w.tpkgs[e.pkgPath]; tp != nil {
 		if o := tp.Scope().Lookup(name); o != nil {
 			if s := e.objValue(o); s != nil {
+				return s
+			}
+		}
+	}
+	// a local that was renamed since the contract was written: resolved by its recorded position (locals.go)
+	if e.f != nil && !e.noAlias {
+		for fr := e.f; fr != nil; fr = fr.parent() {
+			if fr.fn == nil {
+				continue
+			}
+			if alt := e.vc.w.aliasOf(fr.fn, name); alt != "" && alt != name {
+				e.noAlias = true
+				s := e.ident(alt)
+				e.noAlias = false
 				return s
 			}
 		}
